@@ -142,7 +142,8 @@ def run(ctx):
 
     # ---------------------------------------------------------------- ring scripts (in batches: outputs are large)
     rcorpus = ring_corpus()
-    kinds = {"ring_corpus": len(rcorpus), "ring_random": 0, "ring_long": 0, "bb_corpus": 0, "bb_random": 0, "bb_long": 0}
+    kinds = {"ring_corpus": len(rcorpus), "ring_random": 0, "ring_long": 0, "ring_dump_after_every_write": 0,
+             "bb_corpus": 0, "bb_random": 0, "bb_long": 0, "bb_dump_after_every_call": 0}
     samples += [{"script": [l[:120] for l in c[:10]]} for c in rcorpus[:1]]
 
     def ring_batches():
@@ -155,7 +156,12 @@ def run(ctx):
             else:
                 nops = rng.choice([8, 15, 30, 60, 100])
                 kinds["ring_random"] += 1
-            batch.append(R.gen_case(rng, True, nops, seqbase=i * 1000, disciplined=disciplined))
+            case = R.gen_case(rng, True, nops, seqbase=i * 1000, disciplined=disciplined)
+            if i % 8 == 5:
+                # read-back at EVERY point: a (non-destructive) dump after every write
+                case = [x for op in case for x in ([op, "D"] if op[0] in "WA" else [op])]
+                kinds["ring_dump_after_every_write"] += 1
+            batch.append(case)
             if len(batch) >= BATCH_RING:
                 yield batch
                 batch = []
@@ -213,7 +219,12 @@ def run(ctx):
             else:
                 nlogs = rng.choice([10, 40, 90, 150])
                 kinds["bb_random"] += 1
-            batch.append(W.gen_bb_case(rng, nlogs))
+            case = W.gen_bb_case(rng, nlogs)
+            if i % 8 == 3 and nlogs <= 150:
+                # a dump taken at EVERY moment: after every log call
+                case = [x for op in case for x in ([op, "D"] if op[0] == "L" else [op])]
+                kinds["bb_dump_after_every_call"] += 1
+            batch.append(case)
             if len(batch) >= BATCH_BB:
                 yield batch
                 batch = []
@@ -266,7 +277,8 @@ def run(ctx):
                 "reclaim / dump-to-file; S from the page-boundary set {.., 4083, 4084, 4085, 8179, 8180, ..} and random; chunk "
                 "lengths aimed at the admission boundary (free-12-{0..8} = no reclaim, free-12+{1..5} = must reclaim), at S, "
                 "above S, at the wrap point, 0..16; payload words from {0, MAGIC, DEAD, ALLOC, small ints, random}; the "
-                "contents are read back at random points (dump = non-destructive, parsed by the monitor; reads; peeks). "
+                "contents are read back at random points (dump = non-destructive, parsed by the monitor; reads; peeks) and, in "
+                "one case of eight, after EVERY write / log call. "
                 "bb: B(size, max_line_length) then log calls (function names 1..40 / 100..400 bytes, message lengths around "
                 "the line limit, tiny, long; plain text, %s and %d formats) with dumps at random points and at the end. "
                 "A ring case is non-trivial when >= 3 writes succeed and the contents are read back at least once; a bb "
